@@ -76,6 +76,7 @@ def main(argv=None):
         from contracts import static_c08  # noqa: F401  (registers its obligations)
         from contracts import finite_c  # noqa: F401
         from contracts import finite_policy  # noqa: F401
+        from contracts import bounded_rds  # noqa: F401
     except Exception:
         traceback.print_exc()
         print(f"CHECKER-ERROR property={a.prop}: contracts could not be loaded")
